@@ -89,7 +89,7 @@ Fixpoint le_val (bs : list N) : N :=
   end.
 
 Definition take (k : nat) (bs : list N) : option (list N * list N) :=
-  if (length bs <? k)%nat then None else Some (firstn k bs, skipn k bs).
+  if Nat.ltb (length bs) k then None else Some (firstn k bs, skipn k bs).
 
 Definition dec_fix (k : nat) (bs : list N) : option (N * list N) :=
   match take k bs with
